@@ -3,6 +3,8 @@
 mod bitmap;
 mod pure;
 mod rng;
+mod slice;
+mod streams;
 mod util;
 
 use rng::Rng;
@@ -45,6 +47,18 @@ fn main() {
     match world {
         "addr" => pure::run_addr(&mut rec, &mut rng, n, chk),
         "endian" => pure::run_endian(&mut rec, &mut rng, n, true, opts.contains(&"all32")),
+        "slice" => {
+            let streams = opts.contains(&"streams");
+            rec.ops.push(format!("prof chk={}", chk as u8));
+            rec.outs.push("ok".into());
+            // one fifth of the ops per tracking flavour
+            use vm_memory::bitmap::{ArcSlice, AtomicBitmap, RefSlice};
+            let k = n / 5 + 1;
+            slice::run::<RefSlice<'static, AtomicBitmap>>(&mut rec, &mut rng, 2 * k, streams);
+            slice::run::<ArcSlice<AtomicBitmap>>(&mut rec, &mut rng, k, streams);
+            slice::run::<Option<RefSlice<'static, AtomicBitmap>>>(&mut rec, &mut rng, k, streams);
+            slice::run::<()>(&mut rec, &mut rng, k, streams);
+        }
         "bitmap" => bitmap::run(&mut rec, &mut rng, n, opts.contains(&"exhaustive")),
         _ => {
             eprintln!("unknown world {}", world);
@@ -55,7 +69,16 @@ fn main() {
     rec.write(&args[4]);
 }
 
+use vm_memory::bitmap::{ArcSlice, AtomicBitmap, RefSlice};
+enum SlAny {
+    Ref(slice::SliceWorld<RefSlice<'static, AtomicBitmap>>),
+    Arc(slice::SliceWorld<ArcSlice<AtomicBitmap>>),
+    Some(slice::SliceWorld<Option<RefSlice<'static, AtomicBitmap>>>),
+    Unit(slice::SliceWorld<()>),
+}
+
 thread_local! {
+    static SL: std::cell::RefCell<SlAny> = std::cell::RefCell::new(SlAny::Unit(slice::SliceWorld::empty()));
     static BM: std::cell::RefCell<bitmap::BmWorld> = std::cell::RefCell::new(bitmap::BmWorld::new());
 }
 
@@ -64,6 +87,25 @@ fn exec_line(rec: &mut Rec, world: &str, line: &str, chk: bool) -> String {
         return "ok".into();
     }
     match world {
+        "slice" => SL.with(|w| {
+            // replay: the flavour is named by the `s.new` line
+            let mut w = w.borrow_mut();
+            if line.starts_with("s.new") {
+                let flav = util::Kv::parse(line).s("flav").to_string();
+                *w = match flav.as_str() {
+                    "arc" => SlAny::Arc(slice::SliceWorld::empty()),
+                    "some" => SlAny::Some(slice::SliceWorld::empty()),
+                    "unit" => SlAny::Unit(slice::SliceWorld::empty()),
+                    _ => SlAny::Ref(slice::SliceWorld::empty()),
+                };
+            }
+            match &mut *w {
+                SlAny::Ref(x) => x.exec(rec, line),
+                SlAny::Arc(x) => x.exec(rec, line),
+                SlAny::Some(x) => x.exec(rec, line),
+                SlAny::Unit(x) => x.exec(rec, line),
+            }
+        }),
         "bitmap" => BM.with(|w| w.borrow_mut().exec(rec, line)),
         "addr" => pure::exec_addr(rec, line, chk),
         "endian" => pure::exec_endian(rec, line),
